@@ -401,7 +401,7 @@ class Sim:
                 clk.t += e[1]
                 self.side.append(e)
                 continue
-            if e[0] in ('SC', 'SS', 'BS'):           # somebody else uses the shared dongle (c01_shared.py)
+            if e[0] in ('SC', 'SS', 'BS', 'OP', 'CL', 'GS'):     # somebody else uses the shared dongle (c01_shared.py)
                 self.side.append(e)
                 self._side_event(e)
                 continue
@@ -629,16 +629,103 @@ class Sim:
         return self._finish()
 
 
-def run_case(case):
+class Blocked(Exception):
+    """a case did not finish within its time bound: some thread of the library is stuck (e.g. waiting for an answer that
+    went to somebody else's queue).  .where = the innermost library frames of the stuck worker"""
+
+    def __init__(self, msg, where=''):
+        Exception.__init__(self, msg)
+        self.where = where
+
+
+_ORIG = {}
+_blocks = {'n': 0, 'shrinking': False}
+MAX_BLOCKS = 3            # after that many stuck cases in one process the remaining cases of the run are skipped
+
+
+def _originals():
+    if not _ORIG:
+        import cflib.crtp.radiodriver as rd
+        import cflib.drivers.crazyradio as crz
+        import cflib.crtp.radio_link_statistics as rls
+        _ORIG.update(find=crz._find_devices, open=rd.RadioManager.__dict__['open'], start=rd._RadioDriverThread.start,
+                     n=rd._nr_of_retries, rls_time=rls.time, q_time=queue.time)
+    return _ORIG
+
+
+def reset_globals():
+    """undo every patch a stuck case may have left behind (its `finally` blocks never run) and end its shared-radio thread"""
+    import cflib.crtp.radiodriver as rd
+    import cflib.drivers.crazyradio as crz
+    import cflib.crtp.radio_link_statistics as rls
+    o = _originals()
+
+    class _Poison:
+        def __getitem__(self, k):
+            raise SystemExit
+    for sr in list(rd.RadioManager._radios):
+        if sr is not None:
+            try:
+                sr._cmd_queue.put(_Poison())
+            except Exception:
+                pass
+    rd.RadioManager._radios = []
+    crz._find_devices = o['find']
+    rd.RadioManager.open = o['open']
+    rd._RadioDriverThread.start = o['start']
+    rd._nr_of_retries = o['n']
+    rls.time = o['rls_time']
+    queue.time = o['q_time']
+
+
+def bounded(fn, timeout):
+    """run fn in a daemon thread; if it is not done after `timeout` seconds: clean up the globals and raise Blocked"""
+    import sys
+    import threading
+    import traceback
+    _originals()
+    if _blocks['n'] >= MAX_BLOCKS and not _blocks['shrinking']:
+        raise Blocked('SKIPPED: %d cases already got stuck in this run' % _blocks['n'])
+    box = {}
+
+    def work():
+        try:
+            box['r'] = fn()
+        except BaseException as e:
+            box['e'] = e
+    t = threading.Thread(target=work, daemon=True)
+    t.start()
+    t.join(timeout)
+    if t.is_alive():
+        frames = sys._current_frames()
+        where = []
+        for th in threading.enumerate():
+            fr = frames.get(th.ident)
+            if fr is None or th is threading.current_thread():
+                continue
+            st = [x for x in traceback.extract_stack(fr) if '/cflib/' in x.filename]
+            if st:
+                where.append('%s: %s' % (th.name, ' <- '.join('%s:%d %s' % (x.filename.split('/cflib/')[-1], x.lineno, x.name)
+                                                              for x in reversed(st[-3:]))))
+        if not _blocks['shrinking']:
+            _blocks['n'] += 1
+        reset_globals()
+        raise Blocked('BLOCKED: no end after %.0f s' % timeout, where='; '.join(where)[:900])
+    if 'e' in box:
+        raise box['e']
+    return box['r']
+
+
+def run_case(case, timeout=None):
     if case.get('threaded'):
-        return Sim(case).run_threaded(case['threaded'])
+        return bounded(lambda: Sim(case).run_threaded(case['threaded'], timeout=15), timeout or 45)
     if case.get('pair'):
         from fakes import c01_shared
-        return c01_shared.Pair(case).run()
+        return bounded(lambda: c01_shared.Pair(case).run(), timeout or 30)
     if case.get('shared'):
         from fakes import c01_shared
-        return c01_shared.SharedSim(case).run()
-    return Sim(case).run()
+        return bounded(lambda: c01_shared.SharedSim(case).run(), timeout or 10)
+    return bounded(lambda: Sim(case).run(), timeout or 10)
 
 
 def parse_all_status(arc, payload_of):
